@@ -1,6 +1,7 @@
 package main
 
 import (
+	"go/types"
 	"fmt"
 	"strings"
 
@@ -15,7 +16,7 @@ func init() {
 		Explanation: "Decides who can write the record, with which key, revision, identity and token (the store's conditional-write semantics are trusted, C14): (R1) every store mutation site falls in exactly one class - create, refresh (Update inside the heartbeat ticker loop), takeover (any other Update), shutdown-delete (Delete in a stop unit); " +
 			"(R2) every store operation names the one key field, which is assigned once, in the constructor, from the configuration's Group; (R3) the refresh presents a revision and token that were read together with a standing claim under the election mutex, publishes the configured instance id, and stores the returned revision back; " +
 			"(R4) every store to the revision field is an own-write result (or the constructor's zero), or an observed revision stored under the write lock while the claim is false in that critical section - so an observed revision can never be the one a leader presents; " +
-			"(R5) created/takeover payloads carry the configured instance id; takeover obligations are C10-R1; (R6) Delete is issued only by a stop unit, after its claim clear, only if the clearing critical section saw the claim true and only after a positive ownership verdict (fresh Get, id and term token equal) issued after the wait for background work.",
+			"(R5) created/takeover payloads carry the configured instance id; takeover obligations are C10-R1; (R6) Delete is issued only by a stop unit, after its claim clear, only if the clearing critical section saw the claim true and only after a positive ownership verdict (fresh Get, id and term token equal) issued after the wait for background work; (R7) the deletion itself presents the revision that ownership read saw (compare-and-delete through the store's optional RevisionDeleter extension, which the JetStream adapter implements), so that a takeover landing between the read and the deletion is refused by the store; the unconditional Delete remains only as the fallback for stores without one.",
 		NotDecided: []string{"that the interleaving of legitimately issued writes is safe (the store's revision check plus timing)", "the window between the ownership read and the unconditional Delete (the KeyValue interface has no conditional delete)", "injectivity of the key in Group beyond 'derived only from the configuration'"},
 		Assumptions: []string{"KeyValue.Update succeeds only for the latest revision; Create only when absent (C14, trusted)"},
 		Rules: map[string]string{
@@ -24,6 +25,7 @@ func init() {
 			"R3": "refresh Update: revision argument = load of the revision field under the election mutex in a section that also loads the claim, and the goroutine issuing the Update is spawned under that claim load == true; payload ID = cfg.InstanceID, Token = the token field read in the same section; a store to the revision field exists on the success edge",
 			"R4": "origins of every value stored to the revision field: const (constructor) | ownwrite | parameters thereof; 'observed' only under the write lock with claim==false in that section",
 			"R5": "payload.ID of every Create/takeover write has origin cfg.InstanceID",
+			"R7": "a Delete-class operation in a stop unit that goes through an extension interface asserted from the store handle presents a revision whose origin is an entry read from the store; a plain KeyValue.Delete in a stop unit is guarded by the negative result of that type assertion; at least one conditional deletion exists",
 			"R6": "Delete: in a stop unit; guarded by claim-seen-true of the clearing section; guarded by a positive verdict of an ownership function whose true-return is dominated by Get err==nil, decode ok, id==cfg.InstanceID, token==argument; the argument is the token field read in the clearing section; the call follows the wait",
 		},
 	})
@@ -294,10 +296,8 @@ func checkC01(c *Ctx) {
 		// ownership verdict
 		var verdict *ssa.Call
 		for _, l := range gs {
-			if call, ok := l.S.V.(*ssa.Call); ok && l.Truth {
-				if g := call.Call.StaticCallee(); g != nil && m.isLib(g) && m.isOwnershipCheck(g) {
-					verdict = call
-				}
+			if call := m.verdictCall(l); call != nil {
+				verdict = call
 			}
 		}
 		if verdict == nil {
@@ -337,12 +337,109 @@ func checkC01(c *Ctx) {
 	if nDel < 1 {
 		c.undecided("R6", "instance-floor", nil, "no Delete store operation found; 1 on the reference tree")
 	}
+
+	// ---- R7: the shutdown deletion is a compare-and-delete where the store offers one -----------
+	// Between the ownership read and the deletion a takeover can land. An unconditional Delete then
+	// removes the successor's record. The deletion must present the revision the ownership read saw;
+	// the unconditional form is only the fallback for stores without a conditional delete.
+	nCond := 0
+	for _, op := range m.StoreOps() {
+		if op.Method != "Delete" {
+			continue
+		}
+		if _, _, ok := m.stopFrame(op.Call); !ok {
+			continue
+		}
+		fn := shortFn(op.Fn)
+		gs := m.AllGuards(op.Call, false)
+		if op.Extension != "" {
+			nCond++
+			// some argument is the revision read by the ownership check
+			okRev := false
+			var os []string
+			for _, a := range op.Call.Call.Args {
+				if b, isB := a.Type().Underlying().(*types.Basic); !isB || b.Kind() != types.Uint64 {
+					continue
+				}
+				o := m.Origins(a)
+				os = append(os, o.String())
+				if o["observed"] && o.all(func(k string) bool { return k == "observed" || strings.HasPrefix(k, "const:") }) {
+					okRev = true
+				}
+			}
+			c.check(okRev, "R7", "conditional shutdown deletion presents the revision of the ownership read in "+fn, op.Call, "%s: origins of its revision argument %v (required: the revision of an entry read from the store)", op.Extension, os)
+			continue
+		}
+		fallback := hasLit(gs, false, func(s *Sym) bool {
+			str := s.String()
+			return strings.HasPrefix(str, "assertok ") && strings.HasSuffix(str, "("+m.path(m.KV)+")#1")
+		})
+		c.check(fallback, "R7", "unconditional Delete only where the store has no conditional delete in "+fn, op.Call,
+			"the plain Delete is reached only on the negative edge of a type assertion of the store handle to an extension interface: %v", fallback)
+	}
+	if nCond == 0 {
+		c.viol("R7", "shutdown deletion is revision-conditional", nil,
+			"no deletion in a stop unit goes through a conditional (revision-checked) delete of the store: a priority takeover that lands between the ownership read and the Delete makes the stopping instance delete its successor's record (history: old create, new update, old delete record-of:new)")
+	}
 }
 
 // isOwnershipCheck: a bool function that reads the record and returns true only if the Get
 // succeeded, the value decoded, id == cfg.InstanceID and token == its parameter.
+// ownershipVerdictIdx: the index of the boolean result of f (its only boolean result).
+func ownershipVerdictIdx(f *ssa.Function) int {
+	idx := -1
+	res := f.Signature.Results()
+	for i := 0; i < res.Len(); i++ {
+		if isBoolType(res.At(i).Type()) {
+			if idx >= 0 {
+				return -1
+			}
+			idx = i
+		}
+	}
+	return idx
+}
+
+// verdictCall: the literal is the (positive) boolean result of a call of an ownership function.
+func (m *Model) verdictCall(l Lit) *ssa.Call {
+	if !l.Truth || l.S.V == nil {
+		return nil
+	}
+	var call *ssa.Call
+	idx := 0
+	switch x := l.S.V.(type) {
+	case *ssa.Call:
+		call = x
+	case *ssa.Extract:
+		if c, ok := x.Tuple.(*ssa.Call); ok {
+			call, idx = c, x.Index
+		}
+	}
+	if call == nil {
+		return nil
+	}
+	g := call.Call.StaticCallee()
+	if g == nil || !m.isLib(g) || !m.isOwnershipCheck(g) || ownershipVerdictIdx(g) != idx {
+		return nil
+	}
+	return call
+}
+
 func (m *Model) isOwnershipCheck(f *ssa.Function) bool {
-	if f.Signature.Results().Len() != 1 || f.Blocks == nil {
+	if v, ok := m.ownerMemo[f]; ok {
+		return v
+	}
+	if m.ownerMemo == nil {
+		m.ownerMemo = map[*ssa.Function]bool{}
+	}
+	r := m.isOwnershipCheck1(f)
+	m.ownerMemo[f] = r
+	return r
+}
+
+func (m *Model) isOwnershipCheck1(f *ssa.Function) bool {
+	vidx := ownershipVerdictIdx(f)
+	if vidx < 0 || f.Blocks == nil {
 		return false
 	}
 	hasGet := false
@@ -361,7 +458,10 @@ func (m *Model) isOwnershipCheck(f *ssa.Function) bool {
 		if !ok || b == f.Recover {
 			continue
 		}
-		v := returnValue(ret, 0)
+		if vidx >= len(ret.Results) {
+			continue
+		}
+		v := returnValue(ret, vidx)
 		if k, isC := constBool(v); isC && !k {
 			continue
 		}
